@@ -68,6 +68,10 @@ def check(ctx):
     # applied to two sources, both subscriptions alive, the first one then cancelled / unsubscribed - the second goes on unaffected
     trows = R.run_kind(ctx, 'rate', extra=['-only', 'native-twin'])
     R.compare(ctx, trows, proj_all, 'C12 one native rate-limiter value applied to two sources (both alive; the first goes away)', nontrivial=lambda c, gd: True, recheck=1)
+    # the re-subscribing operators (loops: Retry*, RepeatWith, While*, DoWhile*, Catch, OnErrorResumeNextWith, Concat): the same pipeline
+    # subscribed once more after its first run is over, whatever that run ended with (kind=resub again=1): the second run is the first again
+    arows = [r for r in R.run_kind(ctx, 'resub') if ' again=1' in r[0]]
+    R.compare(ctx, arows, lambda d: (flag(d), d.get('again')), 'C12 a pipeline built from a re-subscribing operator, subscribed again after its first run', nontrivial=lambda c, gd: True, max_report=2)
     rows = run_reuse(ctx)
     R.compare(ctx, rows, proj_all, 'C12 re-subscription / re-application of one operator value',
               nontrivial=lambda c, gd: 'N' in c and gd.get('t1', '-') != '-')
